@@ -35,7 +35,7 @@ class C18(XsProp):
         self.expect = {}
         for d in datas:
             for e in (ENC if (thorough or len(d) != 1) else [rng.choice(ENC), rng.choice(ENC)]):
-                form = rng.choice(['bits', 'slice', 'str', 'vec']) if len(d) < 60 else rng.choice(['bits', 'slice'])
+                form = rng.choice(['bits', 'slice', 'str', 'vec', 'view']) if len(d) < 60 else rng.choice(['bits', 'slice', 'view'])
                 bits = ''.join('{:08b}'.format(b) for b in d)
                 if form == 'bits':
                     pre = 'push B%s' % (bits or '-')
@@ -44,6 +44,12 @@ class C18(XsProp):
                     allbits = ''.join(rng.choice('01') for _ in range(off)) + bits + ''.join(rng.choice('01') for _ in range((-(off + len(bits))) % 8))
                     hx_ = ''.join('%02x' % int(allbits[i:i + 8], 2) for i in range(0, len(allbits), 8)) or '-'
                     pre = 'input %s %d %d | eval %s' % (hx_, off, off + len(bits), hexsrc('%d bits' % len(bits)))
+                elif form == 'view':
+                    # a byte-aligned view into a longer buffer: bytes before and after it belong to the buffer, not to the value
+                    pre_b = bytes(rng.getrandbits(8) for _ in range(rng.choice([0, 1, 2])))
+                    post_b = bytes(rng.getrandbits(8) for _ in range(rng.choice([1, 2, 3])))
+                    hx_ = (pre_b + d + post_b).hex()
+                    pre = 'input %s %d %d | eval %s' % (hx_, 8 * len(pre_b), 8 * (len(pre_b) + len(d) + len(post_b)), hexsrc('%d bits' % len(bits)))
                 elif form == 'str':
                     try:
                         t = d.decode('utf-8')
